@@ -28,7 +28,7 @@
    variant that lacks only that fix, and the repaired outcome on [fixed].
    A twelfth, the recorded finding c11-handle-after-rebuild (six operations re-built the green tree
    and re-rooted `self`, so a handle taken earlier went stale), is repaired by
-   proposed_fixes/C11-10-in-place-splice.patch (pending commit): every edit is now an in-place
+   proposed_fixes/C11-10-in-place-splice.patch (committed to /repo as 5517d72): every edit is now an in-place
    splice_children on the live node.  [fixed] includes it (flag fx_in_place); the variants
    without_* of the eight earlier fixes are "that fix and C11-10 missing", [without_in_place] is the
    code with the eight fixes only.
